@@ -162,6 +162,29 @@ Definition pm_pop (s : pm_st) (nd : nat) : res (pm_loop + pm_st) :=
   | S nd' => do d <- rd ACount (cnt s) nd'; Ok (inl (s, N.to_nat d, nd'))
   end.
 
+Definition set_cnt (s : pm_st) (c : list N) : pm_st := mkst (tree s) (pkgw s) (prevw s) (currw s) c.
+
+(* the `if (likely(depth != 1)) { memcpy; pkg_weight[depth] = ...; prev_weight[depth] = ...; }` part *)
+Definition pm_take_pkg (s : pm_st) (depth d1 : nat) (pw : N) : res pm_st :=
+  do t' <- copy_row (tree s) depth d1;
+  do vw <- rd APrev (prevw s) depth;
+  do p' <- wr APkg (pkgw s) depth (weight_add vw pw);
+  do v' <- wr APrev (prevw s) depth pw;
+  Ok (mkst t' p' v' (currw s) (cnt s)).
+
+(* the else part: tree[depth][0]++; pkg_weight[depth] = ...; prev_weight[depth] = ...; curr_weight[depth] = ... *)
+Definition pm_take_leaf (lw : list N) (as_ : N) (s : pm_st) (depth : nat) (cw : N) : res pm_st :=
+  do t0 <- rd2 (tree s) depth 0;
+  do t' <- wr2 (tree s) depth 0 (t0 + 1);
+  do vw <- rd APrev (prevw s) depth;
+  do p' <- wr APkg (pkgw s) depth (weight_add vw cw);
+  do v' <- wr APrev (prevw s) depth cw;
+  if t0 + 1 <=? as_ then
+    do nw <- rd ALeaf lw (N.to_nat (as_ - (t0 + 1)));
+    do c' <- wr ACurr (currw s) depth nw;
+    Ok (mkst t' p' v' c' (cnt s))
+  else Err (Underflow 2).
+
 (* one iteration of the inner for(;;) *)
 Definition pm_iter (lw : list N) (as_ : N) (x : pm_loop) : res (pm_loop + pm_st) :=
   let '(s, depth, nd) := x in
@@ -174,24 +197,13 @@ Definition pm_iter (lw : list N) (as_ : N) (x : pm_loop) : res (pm_loop + pm_st)
       match d1 with
       | O => pm_pop s nd                                           (* depth == 1: nothing happens *)
       | S _ =>
-        do t' <- copy_row (tree s) depth d1;
-        do vw <- rd APrev (prevw s) depth;
-        do p' <- wr APkg (pkgw s) depth (weight_add vw pw);
-        do v' <- wr APrev (prevw s) depth pw;
-        do c' <- wr ACount (cnt s) nd (N.of_nat d1);               (* count[next_depth++] = depth (after depth--) *)
-        Ok (inl (mkst t' p' v' (currw s) c', d1, S nd))
+        do s1 <- pm_take_pkg s depth d1 pw;
+        do c' <- wr ACount (cnt s1) nd (N.of_nat d1);              (* count[next_depth++] = depth (after depth--) *)
+        Ok (inl (set_cnt s1 c', d1, S nd))
       end
     else
-      do t0 <- rd2 (tree s) depth 0;
-      do t' <- wr2 (tree s) depth 0 (t0 + 1);
-      do vw <- rd APrev (prevw s) depth;
-      do p' <- wr APkg (pkgw s) depth (weight_add vw cw);
-      do v' <- wr APrev (prevw s) depth cw;
-      if t0 + 1 <=? as_ then
-        do nw <- rd ALeaf lw (N.to_nat (as_ - (t0 + 1)));
-        do c' <- wr ACurr (currw s) depth nw;
-        pm_pop (mkst t' p' v' c' (cnt s)) nd
-      else Err (Underflow 2)
+      do s1 <- pm_take_leaf lw as_ s depth cw;
+      pm_pop s1 nd
   end.
 
 (* at most 2^k iterations of a step function *)
@@ -209,8 +221,7 @@ Definition PM_FUEL : nat := S (S MCL).     (* 2^22 iterations per value of width
 (* body of: for (width = 2; width < as; width++) *)
 Definition pm_width (lw : list N) (as_ : N) (s : pm_st) : res pm_st :=
   do c' <- wr ACount (cnt s) 0 MAX_CODE_LENGTH;                   (* count[0] = MAX_CODE_LENGTH *)
-  let s0 := mkst (tree s) (pkgw s) (prevw s) (currw s) c' in
-  match iter2 PM_FUEL (pm_iter lw as_) (s0, MCL, 1%nat) with
+  match iter2 PM_FUEL (pm_iter lw as_) (set_cnt s c', MCL, 1%nat) with
   | Ok (inr s') => Ok s'
   | Ok (inl _) => Err OutOfFuel
   | Err e => Err e
